@@ -11,3 +11,5 @@ CONSTANTS
   WithFail = TRUE
   Salts = {1}
   Pres = {"none", "hop"}
+  Maps = {"none", "cover", "other"}
+  MapRebuildLossy = FALSE
